@@ -9,7 +9,7 @@ restore() { git -C ${REPO:-/repo} checkout -- . ; }
 trap restore EXIT
 git apply "$PATCH" || { echo "PATCH DOES NOT APPLY"; exit 3; }
 echo "== unit tests with the change"
-CARGO_NET_OFFLINE=true cargo test --workspace --lib --bins --no-fail-fast --offline 2>&1 | grep -E "^test result: .* [1-9][0-9]* (passed|failed)|^error" | head -3
+[ -n "${SKIP_UNIT:-}" ] && echo "(skipped: already run when the change was confirmed)" || CARGO_NET_OFFLINE=true cargo test --workspace --lib --bins --no-fail-fast --offline 2>&1 | grep -E "^test result: .* [1-9][0-9]* (passed|failed)|^error" | head -3
 cd ${VERIFDIR:-/verif}
 for id in "$@"; do
   echo "== ./check $id quick"
